@@ -11,4 +11,6 @@ go build -o "$tmp/vcheck" ./cmd/vcheck
 (cd vinstr && go build -o "$tmp/vinstr" .)
 "$tmp/vinstr" -dir /repo -out "$tmp/ov" mellium.im/xmpp mellium.im/xmpp/ibb mellium.im/xmpp/muc mellium.im/xmpp/receipts mellium.im/xmpp/history mellium.im/xmpp/blocklist mellium.im/xmpp/disco mellium.im/xmpp/internal/stream
 go build -overlay "$tmp/ov/overlay.json" -o "$tmp/vcheck-vs" ./cmd/vcheck
+# the free-running complement of the scheduler-based checks is a -race build of the same harness
+go build -race -overlay "$tmp/ov/overlay.json" -o "$tmp/vcheck-race" ./cmd/vcheck
 "$tmp/vcheck" list
